@@ -25,9 +25,9 @@ DOCTYPES = ['<!DOCTYPE html PUBLIC "">', "<!DOCTYPE html SYSTEM ''>", '<!DOCTYPE
             '<!DOCTYPE html PUBLIC "" "about:legacy-compat">', '<!DOCTYPE html PUBLIC "-//W3C//DTD HTML 4.01//EN">', "<!doctype HTML>", "<!DOCTYPE htm>", "",
             '<!DOCTYPE html SYSTEM "">', '<!DOCTYPE html PUBLIC "-//W3C//DTD XHTML 1.0 Strict//EN" "http://www.w3.org/TR/xhtml1/DTD/xhtml1-strict.dtd">']
 INSERTS = ["</i>", "</p>", "<table>", "</table>", "<b>", "x", "\n", "</td>", "<tr>", "&amp;", "<!-- c -->", "</br>", " ", "<li>", "</body>", "<p>", "<svg>", "</svg>", "\t\n"]
-LEXICAL_ERRORS = ["</p x=y>", "<br/ >", "<a b=1 b=2></a>", "<i a=\"b\"c></i>", "&#0;", "&#x110000;", "&#xD800;", "&#128;", "&#1;", "&#xFDD0;", "<!-->", "<!--->", "<!--x--!>", "<!x>", "<?x>", "</>",
+LEXICAL_ERRORS = ["<i></i x=y>", "<i></i x>", "<br/ >", "<a b=1 b=2></a>", "<i a=\"b\"c></i>", "&#0;", "&#x110000;", "&#xD800;", "&#128;", "&#1;", "&#xFDD0;", "<!-->", "<!--->", "<!--x--!>", "<!x>", "<?x>", "</>",
                   "</ x>", "<3", "\x00", "<a b='c'd></a>", "<a b=c\"d></a>", "<a =b></a>", "<a b\"c=d></a>", "<a b=></a>", "&amp", "&ampx", "x\x0by", "\ufdd0", "\x7f", "<a b=c'd></a>",
-                  "<a b=c<d></a>", "<a b=c=d></a>", "<a b=c`d></a>", "<a 'b'></a>", "<a <b></a>", "</p/>", "<!DOCTYPE html>", "&#x;", "&#;", "&#xZ", "&#9999999999;", "<!--x", "<b", "<b a", "<b a=", "<b a='x",
+                  "<a b=c<d></a>", "<a b=c=d></a>", "<a b=c`d></a>", "<a 'b'></a>", "<a <b></a>", "<i></i/>", "<!DOCTYPE html>", "&#x;", "&#;", "&#xZ", "&#9999999999;", "<!--x", "<b", "<b a", "<b a=", "<b a='x",
                   "</b", "<!DOCTYPE", "<![CDATA[x]]>", "<!-", "&#65"]
 WS_TAILS = ["", " ", "\n", "\n\n ", "x", " x", "&#32;", "<!-- c -->", "\n<!-- c -->"]
 
